@@ -773,6 +773,30 @@ impl Board {
         self.position_history.contains(&position)
     }
 
+    /// Verification accessor: the en-passant file.
+    #[cfg(rce_verif)]
+    pub const fn rce_verif_en_passant_file(&self) -> Option<u8> {
+        self.en_passant_file
+    }
+
+    /// Verification accessor: number of undo records (1 for a freshly built position).
+    #[cfg(rce_verif)]
+    pub fn rce_verif_history_len(&self) -> usize {
+        self.history.len()
+    }
+
+    /// Verification accessor: the remembered position keys, sorted (with multiplicity if any).
+    #[cfg(rce_verif)]
+    pub fn rce_verif_position_keys(&self) -> Vec<u64> {
+        let mut keys: Vec<u64> = self
+            .position_history
+            .iter()
+            .map(|k| k.rce_verif_u64())
+            .collect();
+        keys.sort_unstable();
+        keys
+    }
+
     /// Finds the move in the list of all legal moves that corresponds to the given notation
     pub fn find_move(&mut self, notation: &str) -> Result<Ply, &'static str> {
         self.get_legal_moves()
